@@ -189,6 +189,10 @@ def case_events(case, spec):
     lp, lT = _read(fr)
     e5 = {"case": case, "ev": "Principal", "p": lp, "T": lT, "items": [], "raised": ""}
     try:
+        if case % 3 == 0:
+            # an earlier evaluation on the same frame with ANOTHER grid must leave nothing behind: the principal stresses
+            # reported for a frame are those of the last call's grid (C18.principal_key demands no stray items)
+            fr.calculate_stress_tensor(coarsing=G + 2 if G < 10 else G - 3, radius=radius)
         fr.calculate_stress_tensor(coarsing=G, radius=radius)
         with np.errstate(all="ignore"):
             for key, (w, v) in fr.principal_stress.items():
